@@ -257,7 +257,9 @@ bool tN2kGroupFunctionHandler::Parse(const tN2kMsg &N2kMsg,
                             unsigned long &PGNForGroupFunction) {
   if (N2kMsg.PGN!=126208L) return false;
 
-  GroupFunctionCode=(tN2kGroupFunctionCode)(N2kMsg.Data[0]);
+  unsigned char FunctionCode=N2kMsg.Data[0];
+  if ( FunctionCode>N2kgfc_WriteReply ) return false; // Not a group function code we know. Converting it to enum would be undefined.
+  GroupFunctionCode=(tN2kGroupFunctionCode)(FunctionCode);
   PGNForGroupFunction=GetPGNForGroupFunction(N2kMsg);
 
   return true;
